@@ -6,6 +6,7 @@ from pv import judges, persist, plans, programs
 
 ID = 'C13'
 TITLE = 'commands: Continue/Wait/Stop/Unsuccessful/Kill with exact arguments'
+ANCHORS = ['plumpy.process_states:Running.execute', 'plumpy.process_states:Running._action_command', 'plumpy.process_states:Waiting.execute', 'plumpy.process_states:Waiting.resume']
 LEVEL = 'exploration'
 TECHNIQUE = ('runtime monitoring: trace monitor on generated continuation functions (recorded positional/keyword arguments) and terminal accessors, '
              'compared with an independent interpreter of the command chain; each chain also run with a checkpoint->fresh-loop restore before every step')
